@@ -6,9 +6,11 @@ import (
 	"fmt"
 	"math"
 	"sort"
+	"strings"
 
 	"github.com/creachadair/mds/cache"
 	"verif/devheap"
+	"verif/elem"
 	"verif/vk"
 )
 
@@ -18,7 +20,13 @@ type Val struct {
 	Size int64 `json:"sz"`
 }
 
-// COp is one step of a cache history.
+// COp is one step of a cache history.  Kinds: put, putNew (Put of a key that
+// is absent), putSame (Put, under a present key, of the very element this
+// history stored there last: for the pointer kinds the identical pointer),
+// putEq (Put, under a present key, of a NEW element that reports the same size
+// as the one stored there: for the pointer kinds a new pointer whose pointee
+// is deeply equal), get, has, remove, clear.  putSame / putEq of an absent key
+// are plain Puts.
 type COp struct {
 	Kind string `json:"k"`
 	K    int    `json:"key,omitempty"`
@@ -30,6 +38,22 @@ type CacheCase struct {
 	Limit    int    `json:"limit"`
 	SizeMode string `json:"sizeMode"` // "unit" (no size func), "val" (value-dependent 0..4, sometimes = limit or > limit)
 	Ops      []COp  `json:"ops"`
+	// Elem is the kind of the cached values ("" = Val), KElem the kind of the
+	// keys ("" = int); see kinds.go.
+	Elem  string `json:"elem,omitempty"`
+	KElem string `json:"kelem,omitempty"`
+	// Opts is the order in which the options are applied to cache.LRU(), one
+	// letter per call: E = OnEvict, S = WithSize (skipped when SizeMode is
+	// "unit": no WithSize at all), x / y = WithSize / OnEvict with a decoy
+	// whose RESULT IS DISCARDED (the options return copies).  An option given
+	// twice: the last one is the one set, the earlier ones get decoys that must
+	// never be called.  Without E there is no callback (its clauses are not
+	// checked).  "" = "ES", today's order; "-" = no option at all.
+	Opts string `json:"opts,omitempty"`
+	// Probe: every step is bracketed by Has(key of the step) before and after
+	// it, both compared with the models (Has is not a use, so the history is
+	// the same with and without the probes).
+	Probe bool `json:"probe,omitempty"`
 }
 
 type pair struct {
@@ -240,6 +264,8 @@ type opResult struct {
 	evs  []pair
 	n    int
 	size int64
+	// Has(key) before / after the step (cases with Probe)
+	pre, post bool
 }
 
 func samePairs(a, b []pair, asMultiset bool) bool {
@@ -249,7 +275,12 @@ func samePairs(a, b []pair, asMultiset bool) bool {
 	if asMultiset {
 		a, b = append([]pair(nil), a...), append([]pair(nil), b...)
 		less := func(s []pair) func(i, j int) bool {
-			return func(i, j int) bool { return s[i].V.ID < s[j].V.ID }
+			return func(i, j int) bool {
+				if s[i].V.ID != s[j].V.ID {
+					return s[i].V.ID < s[j].V.ID
+				}
+				return s[i].K < s[j].K // ids are unique, except noID (empty values of the length-sized kinds)
+			}
 		}
 		sort.Slice(a, less(a))
 		sort.Slice(b, less(b))
@@ -262,30 +293,115 @@ func samePairs(a, b []pair, asMultiset bool) bool {
 	return true
 }
 
-func (c CacheCase) valFor(step int, op COp) Val {
+// opts resolves the Opts field ("" = today's order).
+func (c CacheCase) opts() string {
+	if c.Opts == "" {
+		return "ES"
+	}
+	return c.Opts
+}
+
+// unit reports whether the cache is built without a size function.
+func (c CacheCase) unit() bool {
+	return c.SizeMode == "unit" || !strings.Contains(c.opts(), "S")
+}
+
+// valFor returns the model value of the Put at step; scale is lenScale for
+// the value kinds whose size is their length (see kinds.go), else 1.
+func (c CacheCase) valFor(step int, op COp, scale int64) Val {
 	v := Val{ID: step + 1, Size: 1}
-	if c.SizeMode != "unit" {
+	if !c.unit() {
 		switch {
 		case op.S%11 == 9:
 			v.Size = int64(c.Limit)
-		case op.S%11 == 10 && op.S%2 == 0:
+		case op.S%11 == 10 && op.S%2 == 0 && scale == 1:
 			v.Size = math.MaxInt64 - int64(op.S%3) // far too big: must be refused without any arithmetic going wrong
 		case op.S%11 == 10:
 			v.Size = int64(c.Limit) + 1 + int64(op.S%3)
 		default:
 			v.Size = int64(op.S % 5)
 		}
+		v.Size *= scale
+		if scale > 1 && v.Size == 0 {
+			v.ID = noID // the empty string / slice
+		}
 	}
 	return v
 }
 
+// runC08 is the replay / rapid entry: it picks the instantiation.
 func runC08(c CacheCase, o *vk.Obs) string {
-	unit := c.SizeMode == "unit"
-	limit := int64(c.Limit)
-	var evlog []pair
-	cfg := cache.LRU[int, Val]().OnEvict(func(k int, v Val) { evlog = append(evlog, pair{k, v}) })
-	if !unit {
-		cfg = cfg.WithSize(func(v Val) int64 { return v.Size })
+	switch c.KElem {
+	case "":
+		return runC08K(c, o, intKeys())
+	case elem.Str:
+		return runC08K(c, o, keyKitOf(elem.StrKit()))
+	case elem.Wide:
+		return runC08K(c, o, keyKitOf(elem.WideKit()))
+	case elem.I16:
+		return runC08K(c, o, keyKitOf(elem.I16Kit()))
+	}
+	return badKind("key", c.KElem)
+}
+
+func runC08K[K comparable](c CacheCase, o *vk.Obs, kk keyKit[K]) string {
+	switch c.Elem {
+	case "":
+		return runC08G(c, o, kk, structVals())
+	case elem.Ptr:
+		return runC08G(c, o, kk, cellVals(elem.PtrKit()))
+	case elem.Any:
+		return runC08G(c, o, kk, cellVals(elem.AnyKit()))
+	case elem.Wide:
+		return runC08G(c, o, kk, cellVals(elem.WideKit()))
+	case elem.Str:
+		return runC08G(c, o, kk, stringVals(c.unit()))
+	case elem.Bytes:
+		return runC08G(c, o, kk, bytesVals(c.unit()))
+	}
+	return badKind("value", c.Elem)
+}
+
+func runC08G[K comparable, V any](c CacheCase, o *vk.Obs, kk keyKit[K], vt valKit[V]) string {
+	if usesCells(c.Elem) {
+		elem.ResetPtr()
+	}
+	unit := c.unit()
+	limit := int64(c.Limit) * vt.scale
+	var evlog []kv[K, V]
+	decoy := "" // set when a function that a later option replaced (or that was set on a discarded copy) is called
+	onEvict := func(k K, v V) { evlog = append(evlog, kv[K, V]{k, v}) }
+	opts := c.opts()
+	lastE, lastS := strings.LastIndexByte(opts, 'E'), strings.LastIndexByte(opts, 'S')
+	hasCB := lastE >= 0
+	cfg := cache.LRU[K, V]()
+	for j, ch := range opts {
+		switch {
+		case ch == 'E' && j == lastE:
+			cfg = cfg.OnEvict(onEvict)
+		case ch == 'E':
+			cfg = cfg.OnEvict(func(K, V) {
+				decoy = "the eviction callback given to an earlier OnEvict was called although a later OnEvict replaced it"
+			})
+		case ch == 'S' && c.SizeMode == "unit":
+			// no WithSize at all
+		case ch == 'S' && j == lastS:
+			cfg = cfg.WithSize(vt.size)
+		case ch == 'S':
+			cfg = cfg.WithSize(func(V) int64 {
+				decoy = "the size function given to an earlier WithSize was called although a later WithSize replaced it"
+				return 1 << 40
+			})
+		case ch == 'x':
+			_ = cfg.WithSize(func(V) int64 {
+				decoy = "a size function was called that was set on a copy of the Config which was then discarded"
+				return 1 << 40
+			})
+		case ch == 'y':
+			_ = cfg.OnEvict(func(K, V) {
+				decoy = "an eviction callback was called that was set on a copy of the Config which was then discarded"
+			})
+		}
 	}
 	cc := cache.New(limit, cfg)
 	ref := &refLRU{limit: limit, unit: unit}
@@ -294,19 +410,42 @@ func runC08(c CacheCase, o *vk.Obs) string {
 	following := false // true once a divergence from pure LRU was explained by dev
 	exposed := false
 	knownHits := 0
-	putOK := map[int]bool{}    // ids successfully stored
-	reported := map[int]bool{} // ids seen by the callback
+	// putOK / reported count per value id: 1 and at most 1 for every id, except
+	// that a putSame stores the value it replaces once more and that the empty
+	// values of the length-sized kinds share noID.
+	putOK := map[int]int{}    // ids successfully stored
+	reported := map[int]int{} // ids seen by the callback
+	made := map[int]V{}       // id -> the element handed to Put for it
+	last := map[int]V{}       // key -> the element of the last successful Put under it
+	lastVal := map[int]Val{}
 	refused, zeroSize, varSize := 0, 0, false
+	rePut, eqPut := 0, 0
 
+	kinds := ""
+	if c.Elem != "" || c.KElem != "" || c.Opts != "" {
+		kinds = fmt.Sprintf(", values %s, keys %s, options %q", kindName(c.Elem, "Val"), kindName(c.KElem, elem.Int), opts)
+		if vt.scale != 1 {
+			kinds += fmt.Sprintf(" (sizes are lengths: limit and sizes x%d)", vt.scale)
+		}
+	}
 	errf := func(i int, op COp, format string, args ...any) string {
-		return fmt.Sprintf("op#%d %s(key=%d) [limit %d, sizes %s]: %s", i, op.Kind, op.K, c.Limit, c.SizeMode, fmt.Sprintf(format, args...))
+		return fmt.Sprintf("op#%d %s(key=%d) [limit %d, sizes %s%s]: %s", i, op.Kind, op.K, c.Limit, c.SizeMode, kinds, fmt.Sprintf(format, args...))
+	}
+	// back converts an element that came out of the cache and, for the kinds
+	// with an identity, checks that it is the element that was put in.
+	back := func(x V) (Val, string) {
+		v := vt.val(x)
+		if m, ok := made[v.ID]; ok && vt.hasID && v.ID != noID && !vt.same(x, m) {
+			return v, fmt.Sprintf("value #%d came back as a different element (a copy / another pointer) than the one handed to Put", v.ID)
+		}
+		return v, ""
 	}
 	ops := append(append([]COp(nil), c.Ops...), COp{Kind: "clear"})
 	for i, op := range ops {
 		op.K = op.K % (c.Limit + 4) // key space scales with the limit so that evictions happen
 		if op.Kind == "putNew" {    // a key that is not present (if any): forces an insertion
 			for j := 0; j < c.Limit+4; j++ {
-				if k := (op.K + j) % (c.Limit + 4); !cc.Has(k) {
+				if k := (op.K + j) % (c.Limit + 4); !cc.Has(kk.mk(k)) {
 					op.K = k
 					break
 				}
@@ -317,9 +456,30 @@ func runC08(c CacheCase, o *vk.Obs) string {
 		var got, wantRef, wantDev opResult
 		lenBefore := cc.Len()
 		multiset := false
+		identity := ""
+		if c.Probe {
+			got.pre, wantRef.pre, wantDev.pre = cc.Has(kk.mk(op.K)), ref.has(op.K), dev.has(op.K)
+		}
 		switch op.Kind {
-		case "put":
-			v := c.valFor(i, op)
+		case "put", "putSame", "putEq":
+			v := c.valFor(i, op, vt.scale)
+			var x V
+			held, present := lastVal[op.K]
+			present = present && op.Kind != "put" && cc.Has(kk.mk(op.K))
+			switch {
+			case present && op.Kind == "putSame":
+				v, x = held, last[op.K] // the identical element once more
+				rePut++
+			case present:
+				v.Size = held.Size // a new element (new id) that reports the same size
+				if vt.scale > 1 && v.Size == 0 {
+					v.ID = noID
+				}
+				x = vt.mk(v)
+				eqPut++
+			default:
+				x = vt.mk(v)
+			}
 			if v.Size != 1 {
 				varSize = true
 			}
@@ -329,27 +489,32 @@ func runC08(c CacheCase, o *vk.Obs) string {
 			if ref.has(op.K) && lenBefore >= 6 {
 				exposed = true
 			}
-			got.ok = cc.Put(op.K, v)
+			got.ok = cc.Put(kk.mk(op.K), x)
 			wantRef.ok, wantRef.evs = ref.put(op.K, v)
 			wantDev.ok, wantDev.evs = dev.put(op.K, v)
 			if got.ok {
-				putOK[v.ID] = true
+				putOK[v.ID]++
+				made[v.ID], last[op.K], lastVal[op.K] = x, x, v
 			} else {
 				refused++
 			}
 		case "get":
-			got.val, got.ok = cc.Get(op.K)
+			var x V
+			x, got.ok = cc.Get(kk.mk(op.K))
+			if got.ok {
+				got.val, identity = back(x)
+			}
 			if got.ok && lenBefore >= 6 {
 				exposed = true
 			}
 			wantRef.val, wantRef.ok = ref.get(op.K)
 			wantDev.val, wantDev.ok = dev.get(op.K)
 		case "has":
-			got.ok = cc.Has(op.K)
+			got.ok = cc.Has(kk.mk(op.K))
 			wantRef.ok = ref.has(op.K)
 			wantDev.ok = dev.has(op.K)
 		case "remove":
-			got.ok = cc.Remove(op.K)
+			got.ok = cc.Remove(kk.mk(op.K))
 			if got.ok && lenBefore >= 6 {
 				exposed = true
 			}
@@ -363,7 +528,16 @@ func runC08(c CacheCase, o *vk.Obs) string {
 		default:
 			return errf(i, op, "VK-INFRA unknown op")
 		}
-		got.evs = evlog
+		if c.Probe {
+			got.post, wantRef.post, wantDev.post = cc.Has(kk.mk(op.K)), ref.has(op.K), dev.has(op.K)
+		}
+		for _, e := range evlog {
+			v, id := back(e.v)
+			got.evs = append(got.evs, pair{kk.v(e.k), v})
+			if identity == "" && id != "" {
+				identity = "eviction callback: " + id
+			}
+		}
 		got.n, got.size = cc.Len(), cc.Size()
 		wantRef.n, wantRef.size = ref.length(), ref.total()
 		wantDev.n, wantDev.size = dev.length(), dev.total()
@@ -372,17 +546,30 @@ func runC08(c CacheCase, o *vk.Obs) string {
 		if got.size > limit {
 			return errf(i, op, "Size = %d exceeds the limit %d", got.size, limit)
 		}
+		if decoy != "" {
+			return errf(i, op, "%s", decoy)
+		}
 		for _, p := range got.evs {
-			if !putOK[p.V.ID] {
+			if putOK[p.V.ID] == 0 {
 				return errf(i, op, "eviction callback reports %v which was never stored", p)
 			}
-			if reported[p.V.ID] {
+			if reported[p.V.ID] >= putOK[p.V.ID] {
 				return errf(i, op, "eviction callback reports %v a second time", p)
 			}
-			reported[p.V.ID] = true
+			reported[p.V.ID]++
+		}
+		if identity != "" {
+			return errf(i, op, "%s", identity)
 		}
 		same := func(w opResult) bool {
-			return got.ok == w.ok && got.val == w.val && got.n == w.n && got.size == w.size && samePairs(got.evs, w.evs, multiset)
+			return got.ok == w.ok && got.val == w.val && got.n == w.n && got.size == w.size && (!hasCB || samePairs(got.evs, w.evs, multiset)) &&
+				got.pre == w.pre && got.post == w.post
+		}
+		probes := func(w opResult) string {
+			if !c.Probe {
+				return ""
+			}
+			return fmt.Sprintf("; Has(%d) before / after the call: got %v / %v, want %v / %v", op.K, got.pre, got.post, w.pre, w.post)
 		}
 		if devAlive && !same(wantDev) {
 			devAlive = false
@@ -394,7 +581,7 @@ func runC08(c CacheCase, o *vk.Obs) string {
 					knownHits++
 				} else {
 					msg := errf(i, op, "result differs from the reference LRU cache: got ok=%v val=%v Len=%d Size=%d callbacks=%v; want ok=%v val=%v Len=%d Size=%d callbacks=%v",
-						got.ok, got.val, got.n, got.size, got.evs, wantRef.ok, wantRef.val, wantRef.n, wantRef.size, wantRef.evs)
+						got.ok, got.val, got.n, got.size, got.evs, wantRef.ok, wantRef.val, wantRef.n, wantRef.size, wantRef.evs) + probes(wantRef)
 					if exposed && !o.NoTriage {
 						msg += " [history is exposed to known finding F2, but the deviation model does not reproduce the cache's behaviour: a different defect]"
 					}
@@ -403,13 +590,16 @@ func runC08(c CacheCase, o *vk.Obs) string {
 			}
 		} else if !devAlive {
 			return errf(i, op, "after an F2-explained divergence the cache no longer follows the deviation model: got ok=%v val=%v Len=%d Size=%d callbacks=%v; model ok=%v val=%v Len=%d Size=%d callbacks=%v",
-				got.ok, got.val, got.n, got.size, got.evs, wantDev.ok, wantDev.val, wantDev.n, wantDev.size, wantDev.evs)
+				got.ok, got.val, got.n, got.size, got.evs, wantDev.ok, wantDev.val, wantDev.n, wantDev.size, wantDev.evs) + probes(wantDev)
 		}
 	}
 	// exactly-once over the whole history (the interpreter ends with Clear)
-	for id := range putOK {
-		if !reported[id] {
-			return fmt.Sprintf("after the final Clear, value #%d was stored but never reported to the eviction callback [limit %d, sizes %s]", id, c.Limit, c.SizeMode)
+	for id, n := range putOK {
+		if hasCB && reported[id] != n {
+			if n > 1 || reported[id] > 0 {
+				return fmt.Sprintf("after the final Clear, value #%d had been stored %d times but was reported to the eviction callback %d times [limit %d, sizes %s%s]", id, n, reported[id], c.Limit, c.SizeMode, kinds)
+			}
+			return fmt.Sprintf("after the final Clear, value #%d was stored but never reported to the eviction callback [limit %d, sizes %s%s]", id, c.Limit, c.SizeMode, kinds)
 		}
 	}
 	if cc.Len() != 0 || cc.Size() != 0 {
@@ -426,6 +616,12 @@ func runC08(c CacheCase, o *vk.Obs) string {
 	o.ClassIf(c.Limit > 12, "limit>12")
 	o.ClassIf(c.Limit >= 33, "limit>=33")
 	o.ClassIf(ref.ntEvic, "eviction_after_reorder_or_remove")
+	o.Class("elem=" + kindName(c.Elem, "Val"))
+	o.Class("kelem=" + kindName(c.KElem, elem.Int))
+	o.Class("opts=" + kindName(c.Opts, "ES(default)"))
+	o.ClassIf(c.Probe, "has_probes_around_every_step")
+	o.ClassIf(rePut > 0, "put_of_the_element_already_held")
+	o.ClassIf(eqPut > 0, "put_of_a_new_element_equal_to_the_one_held")
 	if knownHits > 0 {
 		o.Class("known_hit_F2")
 		o.Known("F2")
